@@ -9,7 +9,7 @@ From RtrV Require Import Base.CSem Gen.Generated Rtr.RtrModel Rtr.RelFrame Rtr.R
 From RtrV Require Rtr.RecvExamples.   (* concrete instances *)
 From RtrV Require Import Base.Mem Gen.GeneratedMem Rtr.CheckSizeTie Rtr.PrefixValidTie.
 From RtrV Require Import Base.MemW Gen.GeneratedMemW Rtr.FooterTie.
-From RtrV Require Gen.GeneratedFsm3 Rtr.FsmTie Rtr.FsmTie3 Rtr.FsmTie3b Rtr.ExpiryFrames.
+From RtrV Require Gen.GeneratedFsm3 Rtr.FsmTie Rtr.FsmTie3 Rtr.FsmTie3b Rtr.FsmTie3c Rtr.ExpiryFrames.
 Local Open Scope Z_scope.
 
 (* ---- (1) termination: all model functions are structural recursions (on the script, or on explicit fuel);
@@ -261,6 +261,14 @@ Theorem C04_receive_header_rejections_translated : forall fuel m len t w h w1,
   Some (Rtr.FsmTie3.as_recv (fun _ => Base.MemW.st_list m 0 h) (receive_pdu t) w).
 Proof. exact Rtr.FsmTie3b.recv_header_phase. Qed.
 
+(* stage 3c (Rtr/FsmTie3c.v): the translated size check never looks behind the bytes it needs and, on the padded receive buffer with
+   the header as rtr_receive_pdu has converted it, computes the model's check_size (all types but Router Key, whose header bytes 2-3 are
+   left in place by the C); the header conversion back to network order restores the received header *)
+Theorem C04_check_size_on_receive_buffer : forall p junk, Forall byte_ok p -> (8 <= zlen p)%Z -> zlen p = get32 p 4 ->
+  nthb p 1 <> c_ROUTER_KEY ->
+  rtr_pdu_check_size_gen (header_host p ++ junk) (Some 0%Z) = Some (b2z (check_size p)).
+Proof. exact Rtr.FsmTie3c.check_size_padded. Qed.
+
 (* the evaluation part, kept in the cone of this property so that a change of rtr_receive_pdu that the scripts exercise stops the build *)
 Example C04_receive_pdu_translation_tests :=
   (Rtr.FsmTie3.recv_success, Rtr.FsmTie3.recv_versions, Rtr.FsmTie3.recv_rejects, Rtr.FsmTie3.recv_transport, Rtr.FsmTie3.no_translator_problems3).
@@ -299,3 +307,4 @@ Print Assumptions C04_receive_path_inside.
 Print Assumptions C04_error_text_len_load_inside.
 Print Assumptions C04_receive_pdu_translated_partial.
 Print Assumptions C04_receive_header_rejections_translated.
+Print Assumptions C04_check_size_on_receive_buffer.
